@@ -5,7 +5,7 @@
 //! ```text
 //! H <id> <scenario> seed=<n>
 //! dev <size>
-//! cfg strict=<0|1> accdate=<0|1> clock=<const|tick> alloc=<0|1> unicode=<0|1> [budget=<n>]
+//! cfg strict=<0|1> accdate=<0|1> clock=<const|tick> alloc=<0|1> unicode=<0|1> [budget=<n>] [optorder=<k>] [shortio=<n>] [nomodel=1]
 //! G … | # …                   ground truth / comment lines: echoed by the executor, otherwise ignored
 //! O <seq> <op> <args…>        (for `raw <n>`: followed by n lines `w <offset> <payload>`)
 //! fault <k>
@@ -36,6 +36,13 @@ pub struct Cfg {
     pub unicode: bool,
     /// device-call budget per operation (hang detection); printed as a trailing `budget=<n>` only when not the default
     pub budget: u64,
+    /// which chain of `FsOptions` builder calls `mount` uses (0 = the classic one); every chain asks for the same
+    /// effective options. Printed only when not 0.
+    pub optorder: u8,
+    /// the device makes LEGAL SHORT transfers: a read / write never crosses a multiple of n (absolute device offset)
+    pub shortio: Option<u64>,
+    /// the history uses a device feature the model does not have (shortio): the driver skips the model comparison
+    pub nomodel: bool,
 }
 
 impl Cfg {
@@ -47,6 +54,9 @@ impl Cfg {
             alloc: cfg!(feature = "alloc"),
             unicode: cfg!(feature = "unicode"),
             budget: crate::dev::DEFAULT_BUDGET,
+            optorder: 0,
+            shortio: None,
+            nomodel: false,
         }
     }
     pub fn default_build() -> Cfg {
@@ -66,6 +76,15 @@ impl Cfg {
         );
         if self.budget != crate::dev::DEFAULT_BUDGET {
             s.push_str(&format!(" budget={}", self.budget));
+        }
+        if self.optorder != 0 {
+            s.push_str(&format!(" optorder={}", self.optorder));
+        }
+        if let Some(n) = self.shortio {
+            s.push_str(&format!(" shortio={}", n));
+        }
+        if self.nomodel {
+            s.push_str(" nomodel=1");
         }
         s
     }
@@ -561,14 +580,10 @@ fn p_op(a: &[&str]) -> Option<(Op, usize)> {
 
 fn p_cfg(line: &str) -> Option<Cfg> {
     let t: Vec<&str> = line.split(' ').collect();
-    if (t.len() != 6 && t.len() != 7) || t[0] != "cfg" {
+    if t.len() < 6 || t[0] != "cfg" {
         return None;
     }
-    let budget = match t.get(6) {
-        Some(tok) => p_num::<u64>(p_kv(tok, "budget")?)?,
-        None => crate::dev::DEFAULT_BUDGET,
-    };
-    Some(Cfg {
+    let mut c = Cfg {
         strict: p_bool(p_kv(t[1], "strict")?)?,
         accdate: p_bool(p_kv(t[2], "accdate")?)?,
         clock: match p_kv(t[3], "clock")? {
@@ -578,8 +593,29 @@ fn p_cfg(line: &str) -> Option<Cfg> {
         },
         alloc: p_bool(p_kv(t[4], "alloc")?)?,
         unicode: p_bool(p_kv(t[5], "unicode")?)?,
-        budget,
-    })
+        budget: crate::dev::DEFAULT_BUDGET,
+        optorder: 0,
+        shortio: None,
+        nomodel: false,
+    };
+    // optional trailing keys, any order
+    for tok in &t[6..] {
+        let (k, v) = tok.split_once('=')?;
+        match k {
+            "budget" => c.budget = p_num(v)?,
+            "optorder" => c.optorder = p_num(v)?,
+            "shortio" => {
+                let n: u64 = p_num(v)?;
+                if n == 0 {
+                    return None;
+                }
+                c.shortio = Some(n);
+            }
+            "nomodel" => c.nomodel = p_bool(v)?,
+            _ => return None,
+        }
+    }
+    Some(c)
 }
 
 /// Result of parsing one `H … E` block. `header_ok == false` means the `H`/`dev`/`cfg` lines were unusable.
